@@ -18,6 +18,8 @@ def run(tier: str) -> int:
                                     ctx_names=['top', 'sor-first', 'seq-tail', 'in-opt', 'in-tcrf']),
         profiles.random_profile('rnd', False, True, 16, 80, ORACLES, actions_mode='bool',
                                 inputs=profiles.inputs_exhaustive(4, 5, cap_q=150, cap_t=700), per_tu=2),
+        # every leaf rule: a leaf has no rewind guard of its own; it must not consume before it knows that it matches
+        profiles.atoms_profile('atoms', ORACLES, cap_q=160, per_tu=3),
     ]
     return engine.run_engine('C02', tier, ['PegtlVerif.Props.C02'], ps)
 
